@@ -170,6 +170,42 @@ func (r *Run) Fail(prop, class, sig, format string, a ...any) {
 	panic(violationPanic{&Violation{Prop: prop, Class: class, Sig: prop + "|" + class + "|" + sig, Msg: fmt.Sprintf(format, a...), Step: r.Step}})
 }
 
+// Try runs one oracle block and returns the violation it raised, if any (other panics pass through).
+func (r *Run) Try(f func()) (v *Violation) {
+	defer func() {
+		if p := recover(); p != nil {
+			if vp, ok := p.(violationPanic); ok {
+				v = vp.v
+				return
+			}
+			panic(p)
+		}
+	}()
+	f()
+	return nil
+}
+
+// FailFirstOf evaluates independent oracle blocks and aborts the run with the violation of the focus property
+// if one of the blocks raised one, otherwise with the first violation raised. A defect that breaks two properties
+// is thereby reported under the property the check is about.
+func (r *Run) FailFirstOf(blocks ...func()) {
+	var vs []*Violation
+	for _, b := range blocks {
+		if v := r.Try(b); v != nil {
+			vs = append(vs, v)
+		}
+	}
+	if len(vs) == 0 {
+		return
+	}
+	for _, v := range vs {
+		if v.Prop == r.Prop {
+			panic(violationPanic{v})
+		}
+	}
+	panic(violationPanic{vs[0]})
+}
+
 // Result of one executed run.
 type Result struct {
 	Seed       uint64
